@@ -51,6 +51,14 @@ def _world(rng, tag):
             script.append({'d': 'unit', 'cls': name, 'sym': sym,
                            'def': ['qty', ['frac', rng.choice(RW.FACTORS)], rng.choice(us)]})
             us.append(sym)
+        if rng.random() < 0.5:
+            # a second spelling of one unit (l and dm3): units derived from either have
+            # equivalent definitions, the FIRST one declared is the one looked up
+            # (seeded C10-h: registry prepends)
+            twin = f"{tag}{i}w"
+            script.append({'d': 'unit', 'cls': name, 'sym': twin,
+                           'def': ['qty', ['int', '1/1'], rng.choice(us)]})
+            us.append(twin)
         bases.append((name, us))
     prices = []
     for i in range(rng.choice([1, 2])):
